@@ -60,7 +60,10 @@ pub fn child_main(prop: &str, tier: Tier, seed: u64, out: &Path, hb_dir: &Path, 
     let total = (spec.total)(tier);
     // VERIF_LIMIT caps the number of case descriptions (used by the determinism self-test)
     let total = std::env::var("VERIF_LIMIT").ok().and_then(|s| s.parse::<u64>().ok()).map(|l| l.min(total)).unwrap_or(total);
-    let threads = jobs();
+    // C15 is about state that outlives a call: every thread of the process must be under the case's own
+    // scheduler, so its cases run one at a time (other workers would interleave with process-wide state
+    // behind the simulator's back; the cases are cheap, one worker is as fast as sixteen).
+    let threads = if prop == "C15" { 1 } else { jobs() };
     let counter = AtomicU64::new(0);
     let stop = AtomicBool::new(false);
     let viols: Mutex<Vec<(u64, Viol)>> = Mutex::new(Vec::new());
